@@ -989,6 +989,8 @@ def linspace(*a, **k):
 def shape(a):
     if isinstance(a, ndarray):
         return a.shape
+    if hasattr(a, 'shape') and not isinstance(a, (list, tuple, dict)):
+        return a.shape          # numpy: ``try: a.shape except AttributeError: asarray(a).shape``
     return _shape_of(a)
 
 
